@@ -180,7 +180,8 @@ impl<'a> PrettyPrinter<'a> {
                     } else {
                         ctx
                     };
-                    self.convert_expr(ctx, expr)
+                    // Code in markup follows a hash.
+                    self.convert_expr(ctx.embedded(true), expr)
                 } else if is_comment_node(node) {
                     self.convert_comment(ctx, node)
                 } else {
